@@ -1093,6 +1093,8 @@ def run(tier, seed):
     # model's for all inputs; a failure is reported when the check finishes unless a stage below finds a
     # concrete failing input
     gen_tie.gate(chk, ['junit_on_test_finished', 'junit_describe', 'junit_summarize_final', 'junit_on_setup_script_finished', 'junit_is_success'], gate)
+    # glue code (DESIGN 11.7, third round): the TestFinished and SetupScriptFinished arms of MetadataJunit::write_event
+    gen_tie.gate(chk, ['junit_test_case', 'junit_script_case'], gate, family="glue")
     checker = "make -C coq Properties/C17.vo && coqc gen/assump_C17.v (Print Assumptions)"
     try:
         rig = e2e.Rig()
